@@ -61,6 +61,9 @@ public:
     }
 
     // We first look for some special format modifiers and replace them
+    // %c also contains the time of the day, expand it like the modifiers below, otherwise it is
+    // cached as a fixed part and shows a stale time until the next recalculation
+    _replace_all(_timestamp_format, "%c", "%a %b %e %H:%M:%S %Y");
     _replace_all(_timestamp_format, "%r", "%I:%M:%S %p");
     _replace_all(_timestamp_format, "%R", "%H:%M");
     _replace_all(_timestamp_format, "%T", "%H:%M:%S");
